@@ -71,6 +71,7 @@ def parseReg : Nat → List String → Option (List RegOp)
  `c11topom lat lon`                           → the 9 entries of `TopocentricOrientation._m`
  `c11topo latd lond alt x y z vx vy vz` (degrees, as given to create_station)         → cartesian (6) then spherical (6) state in the station frame
  `c11back latd lond alt x y z vx vy vz`         → station-frame cartesian state expressed in the parent frame
+ `c11hand latdA londA altA latdB londB altB x y z vx vy vz` → a cartesian state of the frame of station A expressed in the frame of station B (same parent): cartesian (6) then spherical (6)
  `c11meas kind npath latd lond alt x y z vx vy vz` → value of the measure (0 Range 1 Azimut 2 Elevation 3 Doppler)
  `c11expand m00 … m22 r0 r1 r2 x y z vx vy vz` → `expand(m, rate) @ state`
  `c11mask n a1 e1 … an en azim`               → `get_mask(azim)` or `index-error`
@@ -106,6 +107,12 @@ def handle : List String → Option String
     match takeFloats 9 rest with
     | some ([latd, lond, alt, x, y, z, vx, vy, vz], []) =>
       fsToStr (fromStation (stationRadians latd) (stationRadians lond) alt [x, y, z, vx, vy, vz])
+    | _ => "bad-op"
+  | "c11hand" :: rest => some <|
+    match takeFloats 12 rest with
+    | some ([latdA, londA, altA, latdB, londB, altB, x, y, z, vx, vy, vz], []) =>
+      let c := stationToStation (stationRadians latdA) (stationRadians londA) altA (stationRadians latdB) (stationRadians londB) altB [x, y, z, vx, vy, vz]
+      fsToStr (c ++ toSpherical c)
     | _ => "bad-op"
   | "c11meas" :: kind :: npath :: rest => some <|
     match kind.toNat?, npath.toNat?, takeFloats 9 rest with
